@@ -690,7 +690,8 @@ def mol_ok_all(r):
 # ---------------------------------------------------------------------------------------------------------------
 # correspondence: the real code and the Coq models on the same inputs
 
-EXTRA = r'''From Coq Require Import Ascii.
+EXTRA_TEMPLATE = r'''From Coq Require Import Ascii.
+@@GEN_IMPORTS@@
 Import ListNotations.
 Open Scope Z_scope.
 Definition opt_str_eqb (a b : option string) : bool := option_eqb String.eqb a b.
@@ -718,15 +719,19 @@ Definition trace_ok (o1 o2 o3 : list Z) (r p : mol) (tr : option trace_t) : bool
   | None => true
   | Some t => match compose_trace o1 o2 o3 r p with Ok t' => trace_eqb t' t | Err _ => false end
   end.
+@@G_TRACE_OK@@
 Definition mc_parts (o1 o2 o3 : list Z) (r p : mol) (exp : pyres cgr) (centre : list Z) (tr : option trace_t) : list bool :=
   [ pyres_eqb cgr_eqb (compose_ord o1 o2 o3 r p) exp;
     pyres_eqb cgr_eqb (map_res cgr_norm (compose r p)) (map_res cgr_norm exp);
     match exp with Ok h => list_eqb Z.eqb (zlsort (center_atoms h)) centre && wf_cgr h | Err _ => true end;
     wf_mol r && wf_mol p;
-    trace_ok o1 o2 o3 r p tr ].
+    trace_ok o1 o2 o3 r p tr;
+    g_trace_ok o1 o2 o3 r p exp centre tr ].
 Definition mc_ok o1 o2 o3 r p exp centre tr : bool := all_true (mc_parts o1 o2 o3 r p exp centre tr).
 Definition mc_part (k : nat) o1 o2 o3 r p exp centre tr : bool := nth k (mc_parts o1 o2 o3 r p exp centre tr) false.
 (* ReactionContainer.compose: the two unions, then compose *)
+@@G_RXN@@
+@@G_UNION@@
 Definition rx_parts (o1 o2 o3 : list Z) (rs gs ps : list mol) (ur up : list Z * list (Z * list Z)) (exp : pyres cgr) (centre : list Z)
   (truth : option (list Z * list (Z * Z))) (tr : option trace_t) : list bool :=
   [ trace_ok o1 o2 o3 (union_all (gs ++ rs)) (union_all ps) tr;
@@ -739,7 +744,10 @@ Definition rx_parts (o1 o2 o3 : list Z) (rs gs ps : list mol) (ur up : list Z * 
     match truth, rxn_compose_ord o1 o2 o3 rs gs ps with
     | Some (atoms, bonds), Ok h => list_eqb Z.eqb (dynamic_atoms h) atoms && list_eqb (pair_eqb Z.eqb Z.eqb) (dynamic_bonds h) bonds
     | _, _ => true
-    end ].
+    end;
+    g_trace_ok o1 o2 o3 (union_all (gs ++ rs)) (union_all ps) exp centre tr;
+    g_rxn_ok o1 o2 o3 rs gs ps exp;
+    g_unions_ok (gs ++ rs) ur && g_unions_ok ps up ].
 Definition rx_ok o1 o2 o3 rs gs ps ur up exp centre truth tr : bool := all_true (rx_parts o1 o2 o3 rs gs ps ur up exp centre truth tr).
 Definition rx_part (k : nat) o1 o2 o3 rs gs ps ur up exp centre truth tr : bool := nth k (rx_parts o1 o2 o3 rs gs ps ur up exp centre truth tr) false.
 (* ReactionContainer.__format__ for the four combinations of !c and !x; the molecule-level facts the theorems assume *)
@@ -748,6 +756,8 @@ Definition roles_eqb (a b : roles) : bool :=
 Definition fmol_okb (m : fmol) : bool :=
   let pcs := split_on "."%char (f_smi m) in
   (f_ncomp m =? Z.of_nat (List.length pcs)) && forallb (fun x => negb (String.eqb x ""%string) && negb (contains ">"%char x)) pcs.
+@@G_FMT_OK@@
+@@G_TOK@@
 Definition fmt_parts (rs gs ps : list fmol) (e e_c e_x e_cx : string) : list bool :=
   [ String.eqb (rxn_format false false rs gs ps) e; String.eqb (rxn_format true false rs gs ps) e_c;
     String.eqb (rxn_format false true rs gs ps) e_x; String.eqb (rxn_format true true rs gs ps) e_cx;
@@ -760,7 +770,8 @@ Definition fmt_parts (rs gs ps : list fmol) (e e_c e_x e_cx : string) : list boo
        | [], [], [] => Err ValueError
        | _, _, _ => Ok (Some (map f_smi (sort_by key_leb rs), map f_smi (sort_by key_leb gs), map f_smi (sort_by key_leb ps)),
                         w_radicals (rxn_write false rs gs ps))
-       end) ].
+       end);
+    g_fmt_ok rs gs ps e e_c e_x e_cx ].
 Definition fmt_ok rs gs ps e e_c e_x e_cx : bool := all_true (fmt_parts rs gs ps e e_c e_x e_cx).
 Definition fmt_part (k : nat) rs gs ps e e_c e_x e_cx : bool := nth k (fmt_parts rs gs ps e e_c e_x e_cx) false.
 Definition fmt1_ok (keep no_cx : bool) (rs gs ps : list fmol) (e : string) : bool := String.eqb (rxn_format keep no_cx rs gs ps) e.
@@ -770,8 +781,59 @@ Definition rd_ok (ignore : bool) (data : string) (exp : pyres (option roles * li
             (match read_rxn (fun x => Z.of_nat (String.length x)) ignore data with Ok (r, rad) => Ok (r, zsort rad) | Err e => Err e end) exp.
 (* writer then reader inside the model == what the real reader did with the real writer's string *)
 Definition tok_atom (symbol : string) (organic : bool) (iso : option string) (a : datom) (exp : option string) : bool :=
-  opt_str_eqb (cgr_atom_str symbol organic iso a) exp.
+  opt_str_eqb (cgr_atom_str symbol organic iso a) exp && g_tok_atom symbol a exp.
 '''
+
+G_TRACE_OK = r'''(* the body of compose as TRANSLATED from the source on every run (Gen.ComposeGen, tools/gen_compose.py), on the same inputs:
+   returned graph or exception, the locals ha / bonds / adj at return, and the translated center_atoms *)
+Definition g_trace_ok (o1 o2 o3 : list Z) (r p : mol) (exp : pyres cgr) (centre : list Z) (tr : option trace_t) : bool :=
+  match g_compose_state o3 o1 o2 r p, exp with
+  | Ok (bs, adjd, ha, hb), Ok h =>
+      cgr_eqb (mkCgr ha hb) h && match tr with None => true | Some t => trace_eqb (ha, bs, adjd) t end &&
+      list_eqb Z.eqb (zlsort (g_center_atoms h)) centre
+  | Err e, Err e' => pyexn_eqb e e'
+  | _, _ => false
+  end.'''
+G_TRACE_STUB = 'Definition g_trace_ok (o1 o2 o3 : list Z) (r p : mol) (exp : pyres cgr) (centre : list Z) (tr : option trace_t) : bool := true.'
+G_FMT_OK = r'''(* ReactionContainer.__format__ as TRANSLATED from the source on every run (Gen.RxnFormatGen, tools/gen_rxnformat.py) *)
+Definition g_fmt_ok (rs gs ps : list fmol) (e e_c e_x e_cx : string) : bool :=
+  String.eqb (g_rxn_format false false rs gs ps) e && String.eqb (g_rxn_format true false rs gs ps) e_c &&
+  String.eqb (g_rxn_format false true rs gs ps) e_x && String.eqb (g_rxn_format true true rs gs ps) e_cx.'''
+G_TOK = r'''(* CGRSmiles._format_atom / _format_bond as TRANSLATED from the source on every run (Gen.CgrTokensGen, tools/gen_cgrtokens.py) *)
+Definition g_tok_atom (symbol : string) (a : datom) (exp : option string) : bool := opt_str_eqb (g_format_atom symbol a) exp.
+Definition g_tok_bond (b : dbond) (exp : option string) : bool := opt_str_eqb (g_format_bond b) exp.'''
+G_TOK_STUB = '''Definition g_tok_atom (symbol : string) (a : datom) (exp : option string) : bool := true.
+Definition g_tok_bond (b : dbond) (exp : option string) : bool := true.'''
+G_RXN = r'''(* ReactionContainer.compose as TRANSLATED from the source on every run (Gen.RxnComposeGen, tools/gen_rxncompose.py) *)
+Definition g_rxn_ok (o1 o2 o3 : list Z) (rs gs ps : list mol) (exp : pyres cgr) : bool := pyres_eqb cgr_eqb (g_rxn_compose_ord o3 o1 o2 rs gs ps) exp.'''
+G_RXN_STUB = 'Definition g_rxn_ok (o1 o2 o3 : list Z) (rs gs ps : list mol) (exp : pyres cgr) : bool := true.'
+G_UNION = r'''(* Graph.union (remap=True, copy=True) as TRANSLATED from the source on every run (Gen.UnionGen, tools/gen_union.py), folded like reduce(or_, ...) *)
+Definition g_unions_ok (l : list mol) (sk : list Z * list (Z * list Z)) : bool :=
+  match l with
+  | [] => skel_eqb (mkMol [] []) sk
+  | x :: rest => match fold_left (fun acc m => match acc with Ok a => g_union a m | Err e => Err e end) rest (Ok x) with
+                 | Ok u => skel_eqb u sk && mol_eqb u (union_all l)
+                 | Err _ => false
+                 end
+  end.'''
+G_UNION_STUB = 'Definition g_unions_ok (l : list mol) (sk : list Z * list (Z * list Z)) : bool := true.'
+G_FMT_STUB = 'Definition g_fmt_ok (rs gs ps : list fmol) (e e_c e_x e_cx : string) : bool := true.'
+
+
+def build_extra(gen_compose_ok=True, gen_format_ok=True, gen_tokens_ok=True, gen_rxn_ok=True, gen_union_ok=True):
+    gen_rxn_ok = gen_rxn_ok and gen_compose_ok       # Gen.RxnComposeGen imports Gen.ComposeGen
+    """the definitions every cases file starts with; the parts that evaluate a model regenerated from the source are stubs when its
+    translator failed closed or its output does not compile (reported by the proof steps)"""
+    imports = [m for m, ok in (('ComposeGen', gen_compose_ok), ('RxnFormatGen', gen_format_ok), ('CgrTokensGen', gen_tokens_ok), ('RxnComposeGen', gen_rxn_ok), ('UnionGen', gen_union_ok)) if ok]
+    return (EXTRA_TEMPLATE.replace('@@GEN_IMPORTS@@', 'From Gen Require Import ' + ' '.join(imports) + '.' if imports else '')
+            .replace('@@G_TRACE_OK@@', G_TRACE_OK if gen_compose_ok else G_TRACE_STUB)
+            .replace('@@G_FMT_OK@@', G_FMT_OK if gen_format_ok else G_FMT_STUB)
+            .replace('@@G_TOK@@', G_TOK if gen_tokens_ok else G_TOK_STUB)
+            .replace('@@G_RXN@@', G_RXN if gen_rxn_ok else G_RXN_STUB)
+            .replace('@@G_UNION@@', G_UNION if gen_union_ok else G_UNION_STUB))
+
+
+EXTRA = build_extra()
 
 
 def localise(name, cases, failing, nparts):
@@ -792,7 +854,7 @@ def localise(name, cases, failing, nparts):
     return 'failing parts (case, part): ' + str([where[j] for j in bad])
 
 
-NPARTS = {'mc_ok': 5, 'rx_ok': 7, 'fmt_ok': 6}
+NPARTS = {'mc_ok': 6, 'rx_ok': 10, 'fmt_ok': 7}
 
 
 def cstr_any(text):
@@ -1329,6 +1391,8 @@ def corr_tokens(ck, rxns):
                 h._bonds = {1: {2: DynamicBond(o, p)}}
                 cases.append(f'opt_str_eqb (cgr_bond_str (mkDBond {opt(o, zraw)} {opt(p, zraw)})) {opt(h._format_bond(1, 2, None), cstr)}')
                 meta.append(('bond', o, p))
+                cases.append(f'g_tok_bond (mkDBond {opt(o, zraw)} {opt(p, zraw)}) {opt(h._format_bond(1, 2, None), cstr)}')
+                meta.append(('bond (translated _format_bond)', o, p))
     for i in range(-6, 7):
         for j in range(-6, 7):
             v = sm.dyn_charge_str.get((i, j))
@@ -1500,6 +1564,19 @@ def corr_morgan(ck, rxns):
 
 # ---- the reaction-level cache across in-place standardisation methods (history: evaluate, modify in place, evaluate again)
 
+EXTRA_CACHE_GEN = r'''From Gen Require Import RxnCacheGen.
+Open Scope Z_scope.
+(* the methods as TRANSLATED from the source on every run (Gen.RxnCacheGen, tools/gen_rxncache.py): returned value and whether a filled
+   cache cell was emptied *)
+Definition gres {A : Type} (x : A * option Z) (eq : A -> A -> bool) (total : A) (flushed : bool) : bool :=
+  eq (fst x) total && Bool.eqb flushed (match snd x with None => true | Some _ => false end).
+Definition gc_thiele (results : list bool) total flushed : bool := gres (g_thiele results (Some 1)) Bool.eqb total flushed.
+Definition gc_kekule (results : list bool) total flushed : bool := gres (g_kekule results (Some 1)) Bool.eqb total flushed.
+Definition gc_clean_isotopes (results : list bool) total flushed : bool := gres (g_clean_isotopes results (Some 1)) Bool.eqb total flushed.
+Definition gc_implicify_hydrogens (counts : list Z) total flushed : bool := gres (g_implicify_hydrogens counts (Some 1)) Z.eqb total flushed.
+'''
+GEN_CACHE_METHODS = ('thiele', 'kekule', 'clean_isotopes', 'implicify_hydrogens')
+USE_GEN_CACHE = [True]
 EXTRA_CACHE = r'''Import ListNotations.
 Open Scope Z_scope.
 (* the flag the method returns and whether the cache was flushed, from the molecules' own return values *)
@@ -1585,9 +1662,15 @@ def history_run(ck, rxn, tag, cases, meta):
         if kind == 'bool':
             cases.append(f'cache_ok_b {lst([bool(x) for x in results], b)} {b(bool(total))} {b(flushed)}')
             meta.append((tag, name, results, total, flushed))
+            if USE_GEN_CACHE[0] and name in GEN_CACHE_METHODS:
+                cases.append(f'gc_{name} {lst([bool(x) for x in results], b)} {b(bool(total))} {b(flushed)}')
+                meta.append((tag, name + ' (translated body)', results, total, flushed))
         elif kind == 'count':
             cases.append(f'cache_ok_c {lst([int(x) for x in results], zraw)} {zraw(int(total))} {b(flushed)}')
             meta.append((tag, name, results, total, flushed))
+            if USE_GEN_CACHE[0] and name in GEN_CACHE_METHODS:
+                cases.append(f'gc_{name} {lst([int(x) for x in results], zraw)} {zraw(int(total))} {b(flushed)}')
+                meta.append((tag, name + ' (translated body)', results, total, flushed))
 
 
 def corr_cache(ck, rxns):
@@ -1600,7 +1683,7 @@ def corr_cache(ck, rxns):
             ck.count('history:directed input refused ' + type(e).__name__)
     for x in (rxns[:40] if ck.tier == 'quick' else rxns[:400]):
         history_run(ck, x.rxn, x.desc['idx'], cases, meta)
-    ok, failing, log = coqcases.run_cases('c15_cache', 'RxnCache', cases, extra=EXTRA_CACHE, shard=400)
+    ok, failing, log = coqcases.run_cases('c15_cache', 'RxnCache', cases, extra=(EXTRA_CACHE_GEN if USE_GEN_CACHE[0] else '') + EXTRA_CACHE, shard=400)
     ck.oblige('correspondence: flag and cache flush of ReactionContainer.thiele / kekule / clean_isotopes / implicify_hydrogens / explicify_hydrogens == Coq model (RxnCache.v)',
               ok and not failing, 'correspondence', log or str([meta[i] for i in failing[:5]]))
     ck.extra['correspondence_cases_cache'] = len(cases)
@@ -1658,6 +1741,33 @@ def search_symmetric_rings(ck):
                                              f"for v in ({v1!r}, {v2!r}):\n    print(str(ring({n}, {ka}, {kb}, 0, *v) ^ ring({n}, {ka}, {kb}, 1, *v)))"))
 
 
+def use_generated_model(ck, proved):
+    """The correspondence also evaluates the models REGENERATED from the source (Gen.ComposeGen, Gen.RxnFormatGen).  If a translator
+    failed closed or its output does not compile (both already reported as broken obligations by the proof steps), the
+    correspondence and the search still run, against the hand-written model only."""
+    global EXTRA
+    oks = []
+    for mod, vo in (('gen_compose', 'gen/ComposeGen.vo'), ('gen_rxnformat', 'gen/RxnFormatGen.vo'), ('gen_cgrtokens', 'gen/CgrTokensGen.vo'), ('gen_rxncompose', 'gen/RxnComposeGen.vo'), ('gen_union', 'gen/UnionGen.vo')):
+        ok = proved
+        if not ok:
+            try:
+                __import__(mod).main(common.REPO)
+                ok, _ = common.coq_make([vo])
+            except Exception:
+                ok = False
+        oks.append(bool(ok))
+    ok = proved
+    if not ok:
+        try:
+            __import__('gen_rxncache').main(common.REPO)
+            ok, _ = common.coq_make(['gen/RxnCacheGen.vo'])
+        except Exception:
+            ok = False
+    USE_GEN_CACHE[0] = bool(ok)
+    ck.extra['generated_models_in_correspondence'] = oks + [bool(ok)]
+    EXTRA = build_extra(*oks)
+
+
 def run(ck):
     ck.trusted += ['correspondence runner harness/checks/C15.py + harness/coqcases.py + harness/coqmol.py (printing live molecules / condensed graphs as Coq terms)',
                    'CachedMethods shim harness/boot.py', 'CPython 3.12.1 (set iteration orders are observed, not modelled)']
@@ -1691,7 +1801,8 @@ def run(ck):
         phases[name] = round(time.time() - t0, 1)
         return r
     # generated files in the closure of props/C15.v: the C15 tables (tools/gen_cgr.py) and those of the writer model of C02
-    proved = timed('proof steps', common.standard_proof_steps, ck, ['cgr', 'smiles_tables', 'elements', 'stereo'])
+    proved = timed('proof steps', common.standard_proof_steps, ck, ['cgr', 'compose', 'rxnformat', 'cgrtokens', 'rxncompose', 'rxncache', 'union', 'smiles_tables', 'elements', 'stereo'])
+    use_generated_model(ck, proved)
     n = 300 if ck.tier == 'quick' else 1000
     rxns = timed('generate', gen_reactions, ck, n)
     ck.extra['reactions'] = len(rxns)
